@@ -78,6 +78,9 @@ class Ctx:
         self.notes = []
         self.axioms = {}
         os.makedirs(os.path.join(VERIF, "replays"), exist_ok=True)
+        for f in os.listdir(os.path.join(VERIF, "replays")):
+            if f.startswith(pid + "-"):
+                os.remove(os.path.join(VERIF, "replays", f))
         os.makedirs(os.path.join(VERIF, "evidence"), exist_ok=True)
         kf = os.path.join(VERIF, "known_findings.json")
         self.known_findings = json.load(open(kf)) if os.path.exists(kf) else {"findings": [], "fixed": []}
